@@ -260,6 +260,7 @@ Definition qtm_init (window_bits : N) : qst :=
      m4 := init_model 0 (N.min i 24); m5 := init_model 0 (N.min i 36); m6 := init_model 0 i;
      m6l := init_model 0 27; m7 := init_model 0 7; optr := 0; oend := 0; err := 0 |}.
 
+Definition set_err (s : qst) (e : N) : qst := s <| err := e |>.
 Definition qtm_call (s : qst) (i : ist) (n : N) : N * qst * ist :=
   match ideal EofPad2 0 (decompress n s) i with
   | (SVal (inl e), i') => (e, s <| err := e |>, i')
